@@ -78,7 +78,7 @@ def gen_case(rng, ver, tier, force=None):
         V = [[s_, t_, i_, ("ok" if (v_ == "rewrite" and s_ == "in") else v_)] for s_, t_, i_, v_ in V]
         if kinds[0] == "fixed":
             V = [[s_, t_, i_, ("ok" if s_ == "out" else v_)] for s_, t_, i_, v_ in V]
-    return {"same_user": same_user, "spec": spec, "turns": turns, "kinds": kinds, "V": V, "cid": "c%d" % rng.randint(0, 10**6), "fault": None, "opts": opts, "api": api, "tx": rng.choice([0, 0, 1, 2, 3])}
+    return {"same_user": same_user, "spec": spec, "turns": turns, "kinds": kinds, "V": V, "cid": "c%d" % rng.randint(0, 10**6), "fault": None, "opts": opts, "api": api, "tx": rng.choice([0, 0, 1, 2, 3, 4])}
 
 
 def expected_action_calls(case):
@@ -99,7 +99,9 @@ def expected_action_calls(case):
     return n, per_turn
 
 
-TEXT_FAMILIES = ("", "$5 off ", 'say "hi" {x} $y ', "it's 100% <b>&amp;</b> ")
+TEXT_FAMILIES = ("", "$5 off ", 'say "hi" {x} $y ', "it's 100% <b>&amp;</b> ", "see {$last_user_message} and {$i} ")  # (the family prefix is directly followed by the turn's unique token)
+# texts that spell references to context variables: the LLM must be shown these very characters (what the rails checked)
+BAITS = ("{$last_user_message}", "{$user_message}")
 
 
 def user_text(case, t):
@@ -245,6 +247,15 @@ def judge(case, records, app):
             P(tagin, t, "llm-call-before-last-input-rail", "")
         if case["kinds"][t] == "llm" and not llms:
             P(tagin, t, "no-generation-for-accepted-message", reply)
+        if llms and mt["text"] == rec["text"]:
+            # (a reference directly in front of the turn's unique token: an expansion of other references may re-insert
+            #  earlier texts, but never this pair)
+            for bait in ("{$i} " + orig_token,):
+                if bait in rec["text"]:
+                    stats["bait_texts_checked"] = stats.get("bait_texts_checked", 0) + 1
+                    if not any(bait in e["prompt"] for e in llms):
+                        P(tagin, t, "llm-shown-a-text-the-rails-did-not-check", {"expected_literally": bait, "prompt_tail": llms[0]["prompt"][-300:]})
+                        break
         if ver == "v1":
             if mt["text"] != rec["text"]:
                 for e in llms:
